@@ -2,6 +2,7 @@ import NucleoVerif.Model.Matcher
 import NucleoVerif.Spec.Matcher
 import NucleoVerif.Props.C03
 import NucleoVerif.Props.C01
+import NucleoVerif.Lemmas.Scan
 /-! # C04 — ranking quality: bounded by the true optimum, no worse than the recurrence
 
 Modelling level (DESIGN.md): `optimalDP` *is* the documented two-matrix recurrence evaluated
@@ -24,16 +25,6 @@ theorem C04_bonus_le_max (cfg : Cfg) (hb : 8 ≤ maxBonus cfg) (prev cls : CharC
 theorem C04_presets_max :
     8 ≤ max presetDefault_white presetDefault_delim ∧ 8 ≤ max presetMatchPaths_white presetMatchPaths_delim ∧
     8 ≤ max presetSetMatchPaths_white presetSetMatchPaths_delim := by decide
-
-/-- a candidate scan never lowers the best score, and once it has seen the maximal bonus nothing changes -/
-theorem Best.offer_mono (cfg : Cfg) (b : Best) (pos bonus : Nat) (ok : Bool) :
-    b.score ≤ (b.offer cfg pos bonus ok).score := by
-  unfold Best.offer
-  split
-  · exact Nat.le_refl _
-  · split
-    · rename_i h; exact Nat.le_of_lt h.1
-    · exact Nat.le_refl _
 
 theorem Best.offer_stopped (cfg : Cfg) (b : Best) (pos bonus : Nat) (ok : Bool) (h : b.stop = true) :
     b.offer cfg pos bonus ok = b := by
@@ -188,35 +179,6 @@ theorem C04_upper_bound (cfg : Cfg) (ext : Ext) (hrep : Rep) (h n : List Nat) (s
 
 /-! ## one-character needles: the best-placed occurrence wins -/
 
-/-- the common shape of the two one-character scans (`substring_match_1_ascii` / `_non_ascii`) -/
-def scan1 (cfg : Cfg) (m : Nat → Bool) (cl : Nat → CharClass) : Best → CharClass → Nat → List Nat → Best
-  | b, _, _, [] => b
-  | b, prev, pos, x :: xs =>
-    scan1 cfg m cl (if m x then b.offer cfg pos (bonusFor cfg prev (cl x)) true else b) (cl x) (pos + 1) xs
-
-/-- the candidates of a one-character scan: (position, 16 + 2·bonus) of every matching character -/
-def cands1 (cfg : Cfg) (m : Nat → Bool) (cl : Nat → CharClass) : CharClass → Nat → List Nat → List (Nat × Nat)
-  | _, _, [] => []
-  | prev, pos, x :: xs =>
-    (if m x then [(pos, bonusFor cfg prev (cl x) * BONUS_FIRST_CHAR_MULTIPLIER + SCORE_MATCH)] else [])
-      ++ cands1 cfg m cl (cl x) (pos + 1) xs
-
-theorem cands1_pos (cfg : Cfg) (m : Nat → Bool) (cl : Nat → CharClass) :
-    ∀ (xs : List Nat) (prev : CharClass) (pos : Nat), ∀ ps ∈ cands1 cfg m cl prev pos xs,
-      pos ≤ ps.1 ∧ ∃ p c, ps.2 = bonusFor cfg p c * BONUS_FIRST_CHAR_MULTIPLIER + SCORE_MATCH := by
-  intro xs
-  induction xs with
-  | nil => intro _ _ ps h; simp [cands1] at h
-  | cons x xs ih =>
-    intro prev pos ps h
-    simp only [cands1, List.mem_append] at h
-    rcases h with h | h
-    · split at h
-      · simp only [List.mem_singleton] at h; subst h; exact ⟨Nat.le_refl _, prev, cl x, rfl⟩
-      · simp at h
-    · have := ih (cl x) (pos + 1) ps h
-      exact ⟨by omega, this.2⟩
-
 /-- what a scan state knows about the candidates `S` seen so far -/
 structure ScanInv (cfg : Cfg) (b : Best) (S : List (Nat × Nat)) : Prop where
   upper : ∀ ps ∈ S, ps.2 ≤ b.score
@@ -296,14 +258,6 @@ theorem scan1_inv (cfg : Cfg) (hb : 8 ≤ maxBonus cfg) (m : Nat → Bool) (cl :
         · simp only [List.mem_singleton] at hps; subst hps; simp
         · simp at hps
 
-
-theorem substring1Ascii_go_eq (cfg : Cfg) (c : Nat) :
-    ∀ (xs : List Nat) (b : Best) (prev : CharClass) (pos : Nat),
-      substring1Ascii.go cfg c b prev pos xs = scan1 cfg (asciiEq cfg.ignoreCase c) (charClassAscii cfg) b prev pos xs := by
-  intro xs
-  induction xs with
-  | nil => intro _ _ _; rfl
-  | cons x xs ih => intro b prev pos; simp only [substring1Ascii.go, scan1]; exact ih _ _ _
 
 /-- for a one-character needle the enumerated alignments are the candidates' positions -/
 theorem allAlignments_single (cfg : Cfg) (hrep : Rep) (nc : Nat) (m : Nat → Bool) (cl : Nat → CharClass)
